@@ -55,6 +55,34 @@ def new_sandbox() -> str:
     return path
 
 
+def sweep_stale_sandboxes() -> int:
+    """Remove sandboxes left behind by workers that were killed (their pid is gone)."""
+    base = scratch_base()
+    n = 0
+    try:
+        names = os.listdir(base)
+    except OSError:
+        return 0
+    for name in names:
+        if not name.startswith("a816-verif-"):
+            continue
+        parts = name.split("-")
+        try:
+            pid = int(parts[2])
+        except (IndexError, ValueError):
+            continue
+        try:
+            os.kill(pid, 0)
+            continue  # owner still alive
+        except ProcessLookupError:
+            pass
+        except PermissionError:
+            continue
+        shutil.rmtree(os.path.join(base, name), ignore_errors=True)
+        n += 1
+    return n
+
+
 def drop_sandbox(path: str) -> None:
     shutil.rmtree(path, ignore_errors=True)
 
